@@ -264,9 +264,9 @@ func scenarios(o *common.Opts) []*callsim.Scenario {
 		}
 		add(&callsim.Scenario{Name: "stale-close-forced", Class: "stale-close", Client: cl, Force: "stale-close",
 			Servers: []callsim.ServerSpec{{Kind: "normal"}}, Calls: calls, GapMs: 100, CapMs: 5000})
-		// storm: 8 concurrent callers per round on one proxy, one of them makes the server reset / garble the
-		// connection while the others' requests (some of them 32 KiB) are being written; then a plain call
-		rounds := 6
+		// storm: per round 8 concurrent callers on one proxy keep 16 KiB requests flowing while a ninth makes the
+		// server reset / garble the connection; after the last round a plain call must succeed
+		rounds := 10
 		storms := 1
 		if o.Thorough() {
 			rounds = 40
@@ -279,21 +279,17 @@ func scenarios(o *common.Opts) []*callsim.Scenario {
 				calls = append(calls, callsim.CallSpec{Wave: 0, Timeout: "proxy", MustOK: true})
 			}
 			for rd := 1; rd <= rounds; rd++ {
-				trig := rng.Intn(8)
+				// 8 callers keep requests (16 KiB, one-way and two-way alternating) flowing for 40 ms; after
+				// 10-25 ms a ninth caller sends the request that makes the server reset / garble the connection
 				for c := 0; c < 8; c++ {
-					cs := callsim.CallSpec{Wave: rd, Timeout: kinds[(rd+c)%3], TimeoutMs: 150, DelayMs: rng.Intn(12)}
-					if c%3 == 0 {
-						cs.PayloadLen = 32 << 10
-					}
-					if c == trig {
-						cs.Trigger = "reset"
-						if (rd+st)%4 == 3 {
-							cs.Trigger = "garbage"
-						}
-						cs.DelayMs = 3 + rng.Intn(6)
-					}
-					calls = append(calls, cs)
+					calls = append(calls, callsim.CallSpec{Wave: rd, Timeout: kinds[(rd+c)%3], TimeoutMs: 150, PayloadLen: 16 << 10,
+						LoopMs: 40, LoopMax: 120, LoopGapUs: 200})
 				}
+				trig := callsim.CallSpec{Wave: rd, Timeout: "proxy", DelayMs: 10 + rng.Intn(15), Trigger: "reset"}
+				if (rd+st)%5 == 4 {
+					trig.Trigger = "garbage"
+				}
+				calls = append(calls, trig)
 			}
 			calls = append(calls, callsim.CallSpec{Wave: rounds + 1, Timeout: "ctx", TimeoutMs: 1500, MustOK: true})
 			add(&callsim.Scenario{Name: fmt.Sprintf("reset-under-load-%d", st), Class: "reset-under-load", Client: cl,
